@@ -4,12 +4,13 @@
 package gossip
 
 import (
+	"time"
 	"github.com/bbva/qed/log"
 	"github.com/bbva/qed/protocol"
 )
 
 func bareAgent(self *Peer, topo *Topology) *Agent {
-	return &Agent{Self: self, topology: topo, log: log.L(), quitCh: make(chan bool)}
+	return &Agent{Self: self, topology: topo, log: log.L(), quitCh: make(chan bool), config: *DefaultConfig()}
 }
 
 // VRoute: the names Agent.route would send to.
@@ -33,6 +34,14 @@ func VSendLocal(self *Peer, ttl int) int {
 func VWasProcessed(c Cache, b *protocol.BatchSnapshots) bool {
 	a := bareAgent(NewPeer("self", "127.0.0.1", 1, "auditor"), NewTopology())
 	a.Cache = c
+	return NewBatchProcessor(a, nil, log.L()).wasProcessed(b)
+}
+
+// VWasProcessedCfg: the same on an agent whose configuration carries the given broadcast timeout.
+func VWasProcessedCfg(c Cache, b *protocol.BatchSnapshots, broadcastTimeout time.Duration) bool {
+	a := bareAgent(NewPeer("self", "127.0.0.1", 1, "auditor"), NewTopology())
+	a.Cache = c
+	a.config.BroadcastTimeout = broadcastTimeout
 	return NewBatchProcessor(a, nil, log.L()).wasProcessed(b)
 }
 
